@@ -3,11 +3,12 @@ import ComposeVerif.Model.Paths
 /-!
 # C11 — model of `loader.Normalize`  (loader/normalize.go)
 
-`Normalize` = `normalizeNetworks` ; per-service loop ; `setNameFromKey`.  Every unchecked type
-assertion of the Go code is a conjunct of one of the three *shape* predicates below; when one
-fails the outcome is `panic <function>` (the functions run one after the other, and all
-assertions of one function report the same site, so the outcome does not depend on Go's map
-order).  When all hold the result is the pure function `normalizePure`.
+`Normalize` = `normalizeNetworks` ; per-service loop ; `setNameFromKey`.  Every type assertion of the Go code
+is a conjunct of one of the three *shape* predicates below.  They used to be unchecked (a failing one was a
+panic); since the /repo repairs `fix: Normalize / normalizeNetworks / setNameFromKey report … as an error instead
+of panicking` a failing one makes the function return an error (the model names the function in the class; the
+wire only compares `err`, because which of several errors is reported depends on Go's map order).  When all hold
+the result is the pure function `normalizePure`.  `Normalize` never panics any more (`normalize_never_panics`).
 
 `clean` stands for Go's `path.Clean` (standard library).  The driver instantiates it with
 `pathClean` below (tied by its own correspondence op); the general theorems only use that it is idempotent,
@@ -375,9 +376,9 @@ def normalizePure (clean : String → String) (env : Env) (d : KVs) : KVs :=
   setNames (normServices clean env (normNetworks d))
 
 def normalize (clean : String → String) (env : Env) (d : KVs) : Out KVs :=
-  if !shapeNN d then .panic "loader.normalizeNetworks"
-  else if !shapeServices d then .panic "loader.Normalize"
-  else if !shapeNames d then .panic "loader.setNameFromKey"
+  if !shapeNN d then .err "normalizeNetworks"
+  else if !shapeServices d then .err "Normalize"
+  else if !shapeNames d then .err "setNameFromKey"
   else .ok (normalizePure clean env d)
 
 end CV.C11
